@@ -267,6 +267,7 @@ type loopDesc struct {
 	contract *LoopContract
 	fc       *FuncContract
 	modCells []*ssa.Alloc
+	modRange map[*ssa.Alloc][][2]int // leaf ranges written (nil entry = whole cell)
 	modHeap  map[string]bool
 	rangeIdx *ssa.Alloc
 }
@@ -400,6 +401,22 @@ func rootAlloc(v ssa.Value) *ssa.Alloc {
 			return nil
 		}
 	}
+}
+
+// cellRange computes the leaf range inside a local cell that a store through addr writes.
+func cellRange(addr ssa.Value) (off, n int, ok bool) {
+	switch x := addr.(type) {
+	case *ssa.Alloc:
+		return 0, nLeaves(derefType(x.Type())), true
+	case *ssa.FieldAddr:
+		o, _, ok := cellRange(x.X)
+		if !ok {
+			return 0, 0, false
+		}
+		s := derefType(x.X.Type()).Underlying().(*types.Struct)
+		return o + fieldOffset(s, x.Field), nLeaves(s.Field(x.Field).Type()), true
+	}
+	return 0, 0, false
 }
 
 func addrPrefix(v ssa.Value) string {
@@ -561,6 +578,16 @@ func (e *Engine) loopMods(fn *ssa.Function, ld *loopDesc) {
 			if s, ok := ins.(*ssa.Store); ok {
 				if a := rootAlloc(s.Addr); a != nil && !a.Heap {
 					cells[a] = true
+					if ld.modRange == nil {
+						ld.modRange = map[*ssa.Alloc][][2]int{}
+					}
+					if off, n, ok := cellRange(s.Addr); ok {
+						if r, seen := ld.modRange[a]; !seen || r != nil {
+							ld.modRange[a] = append(r, [2]int{off, n})
+						}
+					} else {
+						ld.modRange[a] = nil
+					}
 					if a.Comment == "rangeindex" && b == ld.header {
 						ld.rangeIdx = a
 					}
@@ -642,8 +669,8 @@ func (e *Engine) enterBlock(st *State, fr *Frame) bool {
 	}
 	if ld.contract == nil || e.Mode == ModeSpec {
 		fr.visits[fr.block.Index]++
-		if fr.visits[fr.block.Index] > 300 {
-			engineErr("loop at %s in %s needs an invariant (unrolled 300 times)", e.pos(firstPos(fr.block)), fr.fn)
+		if fr.visits[fr.block.Index] > 100 {
+			engineErr("loop at %s in %s needs an invariant (unrolled 100 times)", e.pos(firstPos(fr.block)), fr.fn)
 		}
 		return false
 	}
@@ -665,6 +692,14 @@ func (e *Engine) enterBlock(st *State, fr *Frame) bool {
 				continue
 			}
 			v, as := freshVal("loop$"+a.Comment, derefType(a.Type()))
+			if rs := ld.modRange[a]; rs != nil {
+				old := st.cells[ck]
+				nv := append(Val{}, old...)
+				for _, r := range rs {
+					copy(nv[r[0]:r[0]+r[1]], v[r[0]:r[0]+r[1]])
+				}
+				v = nv
+			}
 			st.cells[ck] = v
 			for _, x := range as {
 				st.assume(x)
